@@ -137,6 +137,16 @@ def judge_call(ctx, env, path, status, sense, raw, outcome, exc, cmd, extra):
     elif status in NAMED and t.startswith("iscsi"):
         if name != NAMED[status]:
             ctx.fail(base + ".wrong_named_exception.%s" % NAMED[status], "status %02Xh raised %s, expected %s" % (status, name, NAMED[status]), wit, exc=exc)
+        else:
+            # ... and it is that status only: a handler written for another status (`except dev.ConditionsMet: pass`, the one
+            # status that means success) or for CHECK CONDITION must not catch it
+            others = [n for n in list(NAMED.values()) + ["CheckCondition"] if n != NAMED[status] and isinstance(exc, getattr(env.dev, n, ()))]
+            ctx.count("exception_class_relations_checked")
+            if others:
+                ctx.fail(base + ".status_exception_is_also.%s" % others[0], "the %s raised for status %02Xh is also an instance of %s: a handler for that other status swallows it"
+                         % (NAMED[status], status, "/".join(others)), wit, exc=exc)
+    if status == 2 and isinstance(exc, tuple(getattr(env.dev, n) for n in NAMED.values() if hasattr(env.dev, n))):
+        ctx.fail(base + ".check_condition_is_also_a_status_error", "the CheckCondition is also an instance of a status exception class (%s)" % name, wit, exc=exc)
 
 
 def execute(env, cmd, raw, via=None):
